@@ -51,10 +51,30 @@ def gen_copy_pos_program(rng, gl):
     return prog, 1
 
 
+def gen_reattach_program(rng, gl):
+    """five distinct glyphs matched as one window by 2-4 successive positioning passes, each re-attaching some of the five items to
+    others: first children, middle children and parents with several children change hands, so the child lists behind the parents
+    (which positioning walks) are edited at every position; the first text is the five glyphs in pattern order"""
+    alpha = rng.sample(gl, 5)
+    prog = [dict(maxloop=1, rules=[dict(pre=0, pat=[{alpha[0]}], acts=[[('A', 500)]], con=None, ret=0)], alpha=alpha, feats=None, hint=list(alpha))]
+    for _ in range(rng.choice((2, 3, 3, 4))):
+        acts = []
+        for j in range(5):
+            al = []
+            if rng.random() < 0.45:
+                al.append(('T', rng.choice([r for r in range(-j, 5 - j) if r != 0])))
+                if rng.random() < 0.5: al.append(('P', rng.choice((0, 100, 300, 600)), rng.choice((0, 250, -120))))
+            acts.append(al)
+        prog.append(dict(maxloop=1, rules=[dict(pre=0, pat=[{g} for g in alpha], acts=acts, con=None, ret=0)], alpha=alpha))
+    return prog, 1
+
+
 def gen_program(rng, gl):
     """gl: glyph ids reachable from the keyboard"""
     if rng.random() < 0.12:
         return gen_growth_program(rng, gl)
+    if rng.random() < 0.12:
+        return gen_reattach_program(rng, gl)
     prog = []
     # the feature values the texts of this program are shaped with (None: the font's defaults, i.e. the first setting of each feature)
     fv = {fid: rng.choice(vals) for fid, vals in K.FEATS} if rng.random() < 0.6 else None
@@ -186,6 +206,8 @@ def run(chk):
         for t in range(8 if thorough else 6):
             n = rng.choice((1, 2, 3, 5, 8, 12)) if len(prog) != nsub or any(ps['maxloop'] not in (2, 3, 5, 8) or len(ps['alpha']) > 3 for ps in prog) or t > 4 else rng.choice((1, 1, 2, 2, 3))
             gids = [rng.choice(alpha) if rng.random() < 0.85 else rng.choice(gl) for _ in range(n)]
+            if prog[0].get('hint') and t < 2:
+                gids = list(prog[0]['hint']) * (t + 1)
             cid = 'q%d.%d' % (k, t)
             fvs = prog[0].get('feats')
             rtl = rng.random() < 0.3                     # right to left on these left-to-right fonts: the passes see the reversed stream
